@@ -278,9 +278,13 @@ def run_pairs(spec, rec):
             t, kw, v = rand_format(rng, currencies, idx)
             cs = {"t": t, "kw": kw, "v": repr(v)}
             if rng.random() < .2:
-                cs["prev"] = [{"t": pt, "kw": pkw} for pt, pkw, _ in (rand_format(rng, currencies, idx + 7 * q + 1) for q in range(rng.choice([1, 1, 2])))]
-                rec.count("cases_with_earlier_formats")
-                rec.hist("earlier_format", cs["prev"][-1]["t"] + ">" + t)
+                # (a star rating is only ever given to 0..5: shown under it, a large value would be that many stars)
+                cs["prev"] = [{"t": pt, "kw": pkw} for pt, pkw, _ in (rand_format(rng, currencies, idx + 7 * q + 1) for q in range(rng.choice([1, 1, 2]))) if pt != "rating"]
+                if not cs["prev"]:
+                    del cs["prev"]
+                else:
+                    rec.count("cases_with_earlier_formats")
+                    rec.hist("earlier_format", cs["prev"][-1]["t"] + ">" + t)
             batch.append(cs)
             rec.count("fmt:" + t)
             if t == "currency":
